@@ -149,6 +149,24 @@ SPEC.update({
 })
 
 
+# add-on writer (EXTENDED ECONOMICS block)
+SPEC.update({
+    'Adjusted Project CAPEX (after incentives, grants, AddOns, etc)': ('addeconomics.AdjustedProjectCAPEX', 'scalar', 1, 2, 'pref'),
+    'Adjusted Project OPEX (after incentives, grants, AddOns, etc)': ('addeconomics.AdjustedProjectOPEX', 'scalar', 1, 2, 'pref'),
+    'Project NPV (including AddOns)': ('addeconomics.ProjectNPV', 'scalar', 1, 2, 'pref'),
+    # the add-on IRR is held as a fraction (C04 checks that the *fraction* zeroes the NPV of the add-on cash flow); the line is labelled %
+    'Project IRR (including AddOns)': ('addeconomics.ProjectIRR', 'scalar', 100, 2, 'pref'),
+    'Project VIR=PI=PIR (including AddOns)': ('addeconomics.ProjectVIR', 'scalar', 1, 2, None),
+    'Project MOIC (including AddOns)': ('addeconomics.ProjectMOIC', 'scalar', 1, 2, None),
+    'Total Add-on CAPEX': ('addeconomics.AddOnCAPEXTotal', 'scalar', 1, 2, 'pref'),
+    'Total Add-on OPEX': ('addeconomics.AddOnOPEXTotalPerYear', 'scalar', 1, 2, 'pref'),
+    'Total Add-on Net Elec': ('addeconomics.AddOnElecGainedTotalPerYear', 'scalar', 1, 2, 'pref'),
+    'Total Add-on Net Heat': ('addeconomics.AddOnHeatGainedTotalPerYear', 'scalar', 1, 2, 'pref'),
+    'Total Add-on Profit': ('addeconomics.AddOnProfitGainedTotalPerYear', 'scalar', 1, 2, 'pref'),
+    'AddOns Payback Period': ('addeconomics.AddOnPaybackPeriod', 'scalar', 1, 2, 'pref'),
+})
+
+
 def _v(snap, path):
     p = get(snap, path)
     return None if p is None else p['value']
@@ -507,12 +525,24 @@ def session_cases():
     d = geo.base_params(2, 1, 1, L=7, n=2)
     d['Units:Pumping Power'] = 'kW'
     out.append(('directive/pumping-power-kW', d))
+    for k, (econ, eu, pl) in enumerate([(2, 1, 1), (3, 2, 9)]):
+        a = geo.base_params(econ, eu, pl, L=12, n=1)
+        a.update({'AddOn Nickname 1': 'x', 'AddOn CAPEX 1': 10 + 5 * k, 'AddOn OPEX 1': 1, 'AddOn Electricity Gained 1': 4e6, 'AddOn Heat Gained 1': 1e6 * k, 'AddOn Profit Gained 1': 0.5,
+                  'AddOn Nickname 2': 'y', 'AddOn CAPEX 2': 3, 'AddOn OPEX 2': 0.2, 'AddOn Electricity Gained 2': 0, 'AddOn Heat Gained 2': 0, 'AddOn Profit Gained 2': 0.9})
+        out.append((f'addons/{k}', a))
     return out
 
 
 def cases_for(chk: core.Check, n_grid, n_div, n_examples):
     rng = chk.rng
     cases = []
+    # fracture geometry that makes the calculated reservoir volume (a `:10.0f` figure) non-integral, with any fractional part
+    for k in range(6):
+        g = geo.base_params(rng.choice([1, 2, 3]), 1, 1, L=rng.choice([4, 11]), n=1)
+        g.update({'Reservoir Volume Option': 1, 'Fracture Shape': rng.choice([1, 2, 3]), 'Fracture Height': round(rng.uniform(300, 900), 2), 'Fracture Area': round(rng.uniform(2e5, 8e5), 1),
+                  'Number of Fractures': rng.randint(5, 30), 'Fracture Separation': round(rng.uniform(20, 100), 3)})
+        g.pop('Reservoir Volume', None)
+        cases.append((f'fracture-geometry/{k}', g))
     grid = geo.grid()
     for (e, eu, pl) in rng.sample(grid, min(n_grid, len(grid))):
         L = rng.choice([1, 2, 5, 12, 30, 40])
